@@ -53,6 +53,39 @@ theorem run_refines (t : T) (ops : List Op) (h : Aligned t) :
     rw [hw] at this
     rw [this]
 
+/-- "one or more tables": the same refinement for the whole suite.  The tables are independent: an
+operation on table `k` is that operation on list `k` and leaves every other list alone; `ts.commit()`
+stores EVERY table's list, `ts.reload()` (and re-opening) restores EVERY table's list; the exception (or
+none) is the plain lists' one. -/
+theorem suite_step_refines (s : Suite) (o : SOp) (h : L.AllAligned s) :
+    L.AllAligned (stepS s o).1 ∧ (stepS s o).1.map (·.width) = s.map (·.width)
+    ∧ specStepS (s.map (·.width)) (s.map absS) o = ((stepS s o).1.map absS, (stepS s o).2) := by
+  cases o with
+  | «at» k op => exact L.stepAt_refines s k op h
+  | commit =>
+    obtain ⟨s', hc, hA, hw, hm⟩ := L.commitAll_refines s h
+    simp only [stepS, specStepS, hc]
+    exact ⟨hA, hw, by rw [hm]⟩
+  | reload =>
+    obtain ⟨hA, hw, hm⟩ := L.reloadAll_refines s
+    simp only [stepS, specStepS]
+    exact ⟨hA, hw, by rw [hm]⟩
+
+/-- … lifted to every history over the suite (operations on any tables interleaved with suite commits and
+reloads): one plain list and its stored copy per table describe the whole run. -/
+theorem suite_run_refines (s : Suite) (os : List SOp) (h : L.AllAligned s) :
+    specRunS (s.map (·.width)) (s.map absS) os = ((runS s os).1.map absS, (runS s os).2) := by
+  induction os generalizing s with
+  | nil => rfl
+  | cons o os ih =>
+    obtain ⟨hA, hw, hs⟩ := suite_step_refines s o h
+    simp only [runS, specRunS]
+    rw [hs]
+    simp only
+    have := ih (stepS s o).1 hA
+    rw [hw] at this
+    rw [this]
+
 /-- `len(table)` is the length of the list. -/
 theorem len_spec (t : T) (h : Aligned t) : len t = (abs t).length := (L.abs_length h).symm
 
@@ -253,6 +286,22 @@ theorem parse_ids_distinct (p : Int) (is : List Int) :
     ∧ (∀ k (h1 : k < (parseIds p is).length) (h2 : k < is.length), is[k] ≤ (parseIds p is)[k])
     ∧ (∀ i j : Int, encInt i = encInt j → i = j) :=
   ⟨L.parseIds_increasing p is, (L.parseIds_ge p is).1, (L.parseIds_ge p is).2, L.encInt_injective⟩
+
+/-- BRIDGE between the two: in a run of the modelled mapper over `items`, the rows of item `k` are the
+`make_record` images of a transaction whose first entry is the parse patch, and the `parse-id` entries of
+those patches are exactly `parseIds (-1) (item ids)` (coded integers); `make_record` copies the entry
+into the `parse-id` column unchanged.  So `parse_ids_distinct` speaks about the produced parse rows. -/
+theorem produced_parse_ids (sch : Schema) (inFields : List FieldS) (script : List Resp) (st' : MState)
+    (items : List Row) (gs : List (List (Nat × Row)))
+    (h : produceItems sch inFields script {} 0 items = (gs, st', none)) :
+    ∃ txs : List (List (String × Dict)), gs = txs.map (fun tx => (toRows sch tx).1)
+      ∧ txs.map parsePidCell = (parseIds (-1) (items.map (itemId inFields))).map (fun p => some (encInt p))
+      ∧ (∀ (fields : List FieldS) (d : Dict) (j : Nat) (f : FieldS) (p : Int), fields[j]? = some f →
+           dget d f.name = some (encInt p) → (makeRecord fields d)[j]? = some (encInt p)) := by
+  obtain ⟨txs, hm, hgs⟩ := L.produceItems_mapItems sch inFields script {} st' 0 items gs h
+  refine ⟨txs, hgs, L.mapItems_parse_ids inFields script {} st' 0 items txs hm, ?_⟩
+  intro fields d j f p hf hd
+  exact L.makeRecord_cell fields d j f (encInt p) hf hd (by unfold cNone encInt; split <;> omega)
 
 /-- what the driver reports for the `callback` of item `k` (`processPhases`, compared with the real
 tables at every item) is the state of the same run after the rows of the first `k` items. -/
